@@ -11,7 +11,8 @@ package obiapat
 //  (3) indel mode: AllMatches reports a hit iff some substring lies within the edit budget; every span lies inside the
 //      sequence and its error count is the edit distance between the pattern and the span, within the budget;
 //      BestMatch's span lies inside the sequence with the same guarantee;
-//  (4) reverse-complementing a pattern does not change the pattern it was built from, is repeatable and involutive.
+//  (4) reverse-complementing a pattern does not change the pattern it was built from, is repeatable and involutive;
+//  (5) patterns of 33 to 64 symbols (sampled, not exhaustive): hits against the naive matcher.
 // Injected into pkg/obiapat with `go test -overlay`; nothing is written into the repository.
 
 import (
@@ -218,6 +219,76 @@ func TestVerifBoundedPatternMatcher(t *testing.T) {
 						}
 					}
 				}()
+			}
+		}
+	}
+	// (5) long patterns (33, 40, 50, 63 symbols, and 64 which must be refused: beyond one 32-bit word of the matcher's bit masks): the pattern,
+	// with 0..maxerr substitutions, planted at the start, in the middle and at the end of a sequence; all the hits of
+	// FindAllIndex against the naive matcher
+	{
+		x := uint32(12345)
+		rnd := func(n int) string {
+			b := make([]byte, n)
+			for i := range b {
+				x = x*1664525 + 1013904223
+				b[i] = "acgt"[(x>>24)&3]
+			}
+			return string(b)
+		}
+		for _, L := range []int{33, 40, 50, 63, 64} {
+			pat := rnd(L)
+			for maxerr := 0; maxerr <= 2; maxerr++ {
+				p, err := MakeApatPattern(pat, maxerr, false)
+				if L >= 64 {
+					// one bit per position plus one in a 64-bit word: 63 positions is the matcher's limit; a longer
+					// pattern must be REFUSED, not compiled into something that never matches
+					cases++
+					if err == nil {
+						fail(fmt.Sprintf("long-pattern=%d:compiled-although-beyond-the-matcher-limit", L))
+					}
+					continue
+				}
+				if err != nil {
+					fail(fmt.Sprintf("long-pattern=%d:cannot-compile:%v", L, err))
+					continue
+				}
+				for nmut := 0; nmut <= maxerr; nmut++ {
+					occ := []byte(pat)
+					for m := 0; m < nmut; m++ {
+						q := (m*17 + 3) % L
+						if occ[q] == 'a' {
+							occ[q] = 'c'
+						} else {
+							occ[q] = 'a'
+						}
+					}
+					for _, fl := range [][2]int{{0, 9}, {7, 7}, {11, 0}} {
+						s := rnd(fl[0]) + string(occ) + rnd(fl[1])
+						cases++
+						aseq, _ := MakeApatSequence(obiseq.NewBioSequence("x", []byte(s), ""), false)
+						want := map[int]int{}
+						for q := 0; q+L <= len(s); q++ {
+							mm := 0
+							for k := 0; k < L; k++ {
+								if pat[k] != s[q+k] {
+									mm++
+								}
+							}
+							if mm <= maxerr {
+								want[q] = mm
+							}
+						}
+						got := map[int]int{}
+						for _, m := range p.FindAllIndex(aseq, 0, -1) {
+							if m[1] <= len(s) {
+								got[m[0]] = m[2]
+							}
+						}
+						if fmt.Sprint(got) != fmt.Sprint(want) {
+							fail(fmt.Sprintf("long-pattern=%d,maxerr=%d,mutations=%d,flanks=%v:hits=%v,want=%v", L, maxerr, nmut, fl, got, want))
+						}
+					}
+				}
 			}
 		}
 	}
